@@ -583,6 +583,7 @@ func (fr *Frame) convert(x *ssa.Convert, st *State, g string) {
 			fc.eng.declareUF(fc, "bseq", []string{"(Array Int Int)", "Int", "Int"}, "Int")
 			fc.assume("true", eq(app("bseq", blk, "0", n), app("strseq", v.t)))
 		}
+		fc.kvstrFact(v.t, blk, "0", n) // ext_kvstr.go
 	case tok && tb.Info()&types.IsString != 0:
 		if _, isSl := from.(*types.Slice); isSl {
 			k, s := fc.bKey(types.Typ[types.Uint8])
@@ -590,6 +591,7 @@ func (fr *Frame) convert(x *ssa.Convert, st *State, g string) {
 			fr.setVal(x, "Str", app("str_of_bytes", blk, soff(v.t), slen(v.t)))
 			fc.assume("true", eq(app("strlen", fr.vals[x].t), slen(v.t)))
 			fc.bytesToStrFact(blk, soff(v.t), slen(v.t), fr.vals[x].t) // ext_bytesalgebra.go
+			fc.kvstrFact(fr.vals[x].t, blk, soff(v.t), slen(v.t)) // ext_kvstr.go
 			return
 		}
 		fc.unsupported("conversion to string from " + x.X.Type().String())
@@ -776,6 +778,10 @@ func (fr *Frame) typeAssert(x *ssa.TypeAssert, st *State, g string) {
 func (fr *Frame) panicInstr(x *ssa.Panic, st *State, g string) {
 	fc := fr.fc
 	if fr.top && fr.spec != nil {
+		if fr.noPanicOld != "" { // ext_nopanic.go: under the stated condition this panic must be unreachable
+			fc.oblige(fr, "nopanic", "panic", g, not(fr.noPanicOld), x.Pos(), "explicit panic unreachable under the `nopanic when` condition", fr.props())
+			return
+		}
 		if fr.spec.MayPanic {
 			return
 		}
